@@ -1205,8 +1205,13 @@ func (self *ArbiterVoter) DoCommit() error {
 	})
 
 	if len(responses) < len(self.manager.members)/2+1 {
-		self.proposalHost = ""
-		self.proposalFromHost = ""
+		self.glock.Lock()
+		if self.manager.ownMember != nil && self.proposalFromHost == self.manager.ownMember.host {
+			// only what this candidacy left behind; a commit accepted from another candidate stays outstanding
+			self.proposalHost = ""
+			self.proposalFromHost = ""
+		}
+		self.glock.Unlock()
 		self.manager.slock.Log().Errorf("Arbier voter do commit fail")
 		return errors.New("member accept proposal count too small")
 	}
